@@ -38,6 +38,67 @@ def signature(run):
     return tuple(sig)
 
 
+DISCOVERY = {
+    "quick": dict(mc="MC_Discovery_quick.cfg", replay="R_Discovery.cfg", shards=4, cap=6000),
+    "thorough": dict(mc="MC_Discovery.cfg", replay="R_Discovery_thorough.cfg", shards=12, cap=60000),
+}
+
+
+def discovery_model(prop, tier, seed, verdict, cov):
+    """C19: Discovery.tla -- design check of the implementation-shaped entries against the statement, then every
+    behaviour of the bounded model performed with the real client API and a real Discoverer (discovery-replay), the
+    reported events and views validated step by step against the specification (Trace_Discovery.tla)."""
+    from concurrent.futures import ThreadPoolExecutor
+    dc = DISCOVERY[tier]
+    cfg = TIERS[tier]
+    wd = vlib.workdir(f"{prop}-{tier}-discovery")
+    res = vlib.tlc_mc("MC_Discovery.tla", dc["mc"], workers=cfg["mc_workers"], timeout=cfg["mc_timeout"])
+    cov["states"] += res["distinct"]
+    cov["transitions"] += res["generated"]
+    cov["mc"].append(dict(config=dc["mc"], distinct=res["distinct"], generated=res["generated"], depth=res["depth"],
+                          wall_s=res["wall_s"], complete=res["left"] == 0))
+    if not res["ok"]:
+        verdict.violation(f"design check {dc['mc']}: {res['violation']}",
+                          dict(kind="tlc-mc", config=dc["mc"], module="MC_Discovery.tla", output_tail=res["raw"][-6000:]))
+    ex = vlib.tlc_behaviours("MC_Discovery.tla", dc["replay"], os.path.join(wd, "tlc-behaviours.out"), workers=cfg["mc_workers"],
+                             timeout=cfg["mc_timeout"])
+    os.remove(os.path.join(wd, "tlc-behaviours.out"))
+    allb = ex["behaviours"]
+    stride = max(1, (len(allb) + dc["cap"] - 1) // dc["cap"])
+    chosen = allb[(seed - 1) % stride::stride]
+    bfile = os.path.join(wd, "behaviours.ndjson")
+    with open(bfile, "w") as f:
+        f.write("\n".join(chosen) + "\n")
+    trace = os.path.join(wd, "discovery-replay.ndjson")
+    args = ["--in", bfile, "--out", trace, "--seed", seed]
+    summ = vlib.run_driver("discovery-replay", args, timeout=3000)
+    recs = vlib.read_ndjson(trace)
+    shards = vlib.split_runs(trace, dc["shards"], wd, "discovery")
+    with ThreadPoolExecutor(max_workers=dc["shards"]) as pool:
+        results = list(pool.map(lambda sh: (sh[1], vlib.tlc_trace("Trace_Discovery.tla", "Trace_Discovery.cfg", sh[0])), shards))
+    drifts = 0
+    for off, r in results:
+        if not r["consumed"]:
+            raise vlib.ToolError(f"discovery replay shard at {off} was not consumed")
+        for (idx, p, why) in r["violations"]:
+            gi = idx + off
+            a, b = vlib.run_of_record(recs, gi)
+            run_no = recs[a].get("run")
+            payload = dict(kind="discovery-replay", behaviour=json.loads(chosen[run_no]) if run_no is not None and run_no < len(chosen) else None,
+                           record_index=gi, trace=recs[a:b], violated_at=recs[gi - 1])
+            verdict.violation(why[:400], payload)
+        for (idx, why) in r["drifts"]:
+            drifts += 1
+            if drifts <= 5:
+                log(f"DRIFT property={prop} the real bus deviates from Discovery.tla: {why} (record {idx + off})")
+    for p, _ in shards:
+        os.remove(p)
+    cov["drift"] += drifts
+    cov["records"] += len(recs)
+    cov["discovery_replay"] = dict(config=dc["replay"], behaviours=len(allb), complete=ex["complete"], replayed=len(chosen), stride=stride,
+                                   steps=summ.get("steps", 0), flagged=summ.get("flagged", [])[:3], drifts=drifts, tlc_wall_s=ex["wall_s"])
+
+
 def run(prop, tier, seed):
     t0 = time.time()
     verdict = vlib.Verdict(prop)
@@ -59,6 +120,8 @@ def run(prop, tier, seed):
             if not res["ok"]:
                 verdict.violation(f"design check {cfgfile}: {res['violation']}",
                                   dict(kind="tlc-mc", config=cfgfile, module=name + ".tla", output_tail=res["raw"][-6000:]))
+    if prop == "C19":
+        discovery_model(prop, tier, seed, verdict, cov)
     if prop == "C15":
         # the connection task's end-of-life protocol (spec/ConnTask.tla), the code as it is: everything but the
         # delivery of a queued Shutdown must hold; that clause is the known finding, re-observed in the model
@@ -140,6 +203,8 @@ def run(prop, tier, seed):
         roles=cov["roles"], conformance_drifts=cov["drift"], other_property_notes=verdict.notes[:10])
     if cov["states"]:
         coverage.update(states=cov["states"], transitions=cov["transitions"], mc=cov["mc"])
+    if cov.get("discovery_replay"):
+        coverage["spec_to_impl_replay"] = cov["discovery_replay"]
     if prop == "C15":
         coverage["rule"] = ("one evaluation = one closed multi-client program re-run with one termination cause (k-th transport operation of the "
                             "victim fails / victim requests shutdown / broker shutdown / forced connection shutdown / connection task dropped) "
@@ -179,6 +244,17 @@ def replay(prop, path, seed):
         res = vlib.tlc_mc(data["module"], data["config"], workers=8, timeout=3300)
         if not res["ok"]:
             verdict.violation(f"design check {data['config']}: {res['violation']}", dict(kind="tlc-mc", config=data["config"], module=data["module"]))
+    elif data.get("kind") == "discovery-replay":
+        bfile = os.path.join(wd, "behaviour.ndjson")
+        with open(bfile, "w") as f:
+            f.write(json.dumps(data["behaviour"]) + "\n")
+        out = os.path.join(wd, "rerun.ndjson")
+        vlib.run_driver("discovery-replay", ["--in", bfile, "--out", out, "--seed", seed])
+        r = vlib.tlc_trace("Trace_Discovery.tla", "Trace_Discovery.cfg", out)
+        recs = vlib.read_ndjson(out)
+        for (idx, p, why) in r["violations"]:
+            verdict.violation(why[:400], dict(kind="discovery-replay", behaviour=data["behaviour"], record_index=idx, trace=recs, violated_at=recs[idx - 1]))
+        log(f"re-run of the stored behaviour on the current tree: {verdict.violations} violation(s) of {prop}")
     else:
         raise vlib.ToolError("unknown replay kind")
     return verdict
